@@ -317,7 +317,7 @@ class FieldsInvTranslator(FieldsTranslator):
                 raise TranslateError(f"{fn.name}: loop-local variable {n} is read before it is assigned")
         if not state:
             raise TranslateError(f"{fn.name}: while loop without state")
-        state.sort()
+        state = self.state_order(state, env)
         types = [env[n] for n in state]
         sty = T(*types) if len(state) > 1 else types[0]
         pat = "(" + ", ".join(lname(n) for n in state) + ")" if len(state) > 1 else lname(state[0])
@@ -336,7 +336,8 @@ class FieldsInvTranslator(FieldsTranslator):
         def run(raising):
             self.loop_markers[mname] = (prefix, list(state), types, raising)
             try:
-                return self.block(list(body) + [marker], dict(env), Fn(fn.name + ".<while>", [], sty, raising), cur)
+                return self.block(list(body) + [marker], self.while_body_env(st, body, assigned, env),
+                                  Fn(fn.name + ".<while>", [], sty, raising), cur)
             finally:
                 del self.loop_markers[mname]
         save = self.saw_raise, self.fresh, self.itcount
@@ -416,10 +417,11 @@ class FieldsInvTranslator(FieldsTranslator):
         self.fuels, self.loops_done, self.curname = list(fuels), 0, lean_name
         self.fresh_lists = set()
         self.dyn_names = set(dyn)
+        self.helper_hdrs = []
         save_nonneg = set(self.nonneg)
         self.nonneg |= set(nonneg)
         try:
-            body = self.block(node.body, env, fn, cur)
+            body = self.block(self.normalize_stmts(list(node.body)), env, fn, cur)
         finally:
             self.nonneg = save_nonneg
             self.dyn_names = set()
@@ -436,7 +438,8 @@ class FieldsInvTranslator(FieldsTranslator):
         rs = lty(ret)
         full = f"Except PyErr ({rs})" if raises else rs
         do = " do" if raises else ""
-        txt = f"{self.header(node, '')}{kd}{aux}def {lean_name} {pdecl} : {full} :={do}\n{indent(body, 2)}\n"
+        hh = "".join(self.helper_hdrs)
+        txt = f"{self.header(node, '')}{hh}{kd}{aux}def {lean_name} {pdecl} : {full} :={do}\n{indent(body, 2)}\n"
         return self.to_dynerr(txt) if raises else txt
 
     # ------------------------------------------------------------------ the generated operator tables
